@@ -36,12 +36,15 @@ RULE = ("parent graphs = random SMILES-like pattern strings (440 quick / 10000 t
         "values inside the sub-pattern (repeats allowed), 6% out of range/negative/empty, 2% node not in the graph; "
         "corpus = D21 witness, a hand-built parent with adjacency out of node order, the substitutions of "
         "test/test_proxy.py, anchor overflow and double attachment, each for both graph classes; history cases "
-        "(55 quick / 1200 thorough + 16 corpus): ONE ProxyGraph object and ONE Parser object used for 2-3 consecutive "
+        "(55 quick / 1200 thorough + 28 corpus): ONE ProxyGraph object and ONE Parser object used for 2-3 consecutive "
         "calls on different parents/nodes, 40% of the later calls on the previous call's result (as build_graphs "
         "does), every call compared with the model on its own inputs and the original anchors; 45% of the histories "
         "contain 1-2 calls whose sub-pattern the parser rejects (random valid prefix + offending token: SyntaxError, "
         "IndexError 'pop from empty list', KeyError on '/' '\\'; must raise what a fresh parser raises, parent "
-        "untouched) before valid calls with the SAME Parser object; after every call "
+        "untouched) before valid calls with the SAME Parser object; 45% of the histories have the caller EDIT the "
+        "ProxyGraph's public attributes after construction, before the first and/or later calls (anchor re-assigned "
+        "longer / shorter / reordered, append / insert / del / reverse in place, pattern re-assigned, name set): the "
+        "model gets the pattern and anchors the object holds at call time; after every call "
         "runtime invariants: graph argument, ProxyGraph.pattern/anchor (object and contents), caller's anchor list, "
         "ProxyGraph's default anchor list unchanged, parser still parses, earlier results not modified later; plus random "
         "operation sequences validating the MultiGraph model itself (kind=mtie: 130 quick / 2000 thorough). "
@@ -288,6 +291,17 @@ def gen_history_case(rng):
     anchors = rand_anchors(rng, deg, k)
     if k >= 2 and len(anchors) < 2 and rng.random() < 0.7:
         anchors = [rng.randrange(0, k) for _ in range(rng.randint(2, 3))]   # several anchors: order matters
+    # 45%: the caller edits the ProxyGraph's public pattern / anchor AFTER construction, before some of the calls
+    default_anchor = anchors == [0] and rng.random() < 0.5
+    if rng.random() < 0.45:
+        pat_now, anc_now = sub, list(anchors)
+        for j, st in enumerate(steps):
+            if rng.random() < (0.7 if j == 0 else 0.4):
+                d = st["graph"].degree(st["node"]) if st["node"] in st["graph"] else 0
+                st["edits"], pat_now, anc_now = rand_edits(rng, mg, pat_now, anc_now, d)
+                st["edits"] = [list(e) for e in st["edits"]]
+        if any(e[0] not in ("assign_anchor", "assign_pattern", "set_name") for st in steps for e in st.get("edits") or []):
+            default_anchor = False     # an in-place edit of the shared default list would be the caller's own bug
     # 45%: 1-2 calls (same Parser object) whose sub-pattern the parser rejects, before valid calls
     if rng.random() < 0.45:
         nbad = rng.choice([1, 1, 2])
@@ -299,7 +313,7 @@ def gen_history_case(rng):
         if pos < len(steps) - nbad:
             steps[pos + nbad]["chain"] = False        # no previous result to chain on
     return {"kind": "history", "mg": mg, "steps": steps, "pattern": sub, "anchors": anchors,
-            "default_anchor": anchors == [0] and rng.random() < 0.5}
+            "default_anchor": default_anchor}
 
 
 def generate(seed, tier, ncases=None):
@@ -331,7 +345,8 @@ def _corpus_history(mg, pattern, anchors, calls, default_anchor=False):
         core, node = call[0], call[1]
         g = Parser(use_multigraph=mg).parse(core if core is not None else "C")
         steps.append({"graph": g, "node": node, "order": "parsed", "src": core, "chain": core is None, "pick": 0,
-                      "bad": call[2] if len(call) > 2 else None})
+                      "bad": call[2] if len(call) > 2 and isinstance(call[2], str) else None,
+                      "edits": [list(e) for e in call[2]] if len(call) > 2 and isinstance(call[2], list) else []})
     return {"kind": "history", "mg": mg, "steps": steps, "pattern": pattern, "anchors": list(anchors),
             "default_anchor": default_anchor}
 
@@ -379,9 +394,116 @@ def corpus():
         yield _corpus_history(mg, "CCC", [0, 2], [("C{g}C", 1, "1C"), ("C{g}C", 1, "C<2,1>C(C))"), ("C1{g}C1", 1)])
         yield _corpus_history(mg, "C=O", [0], [("N{g}O", 1), ("C{g}C", 1, "CC1/C"), ("N{g}(O)S", 1), (None, 0)])
         yield _corpus_history(mg, "C", [0], [("{g}C", 7, "C)"), ("C{g}", 1)])      # node missing AND pattern rejected
+        # the caller edits the public attributes after construction: replace_node must read pattern / anchor (and
+        # the anchor list's CURRENT length) at call time
+        yield _corpus_history(mg, "CCC", [0], [("N{g}(O)(S)C", 1, [("assign_anchor", [0, 2])])])
+        yield _corpus_history(mg, "CCC", [0, 1], [("N{g}(O)(S)C", 1, [("append", 2)]), ("N{g}(O)(S)C", 1, [("append", 0)])])
+        yield _corpus_history(mg, "CCC", [0, 1, 2], [("N{g}(O)(S)C", 1, [("del_last",)]), ("N{g}(O)(S)C", 1, [("del_last",)])])
+        yield _corpus_history(mg, "CCC", [2, 0], [("C1{g}C1", 1), ("C1{g}C1", 1, [("reverse",)]), (None, 0, [("insert0", 1)])])
+        yield _corpus_history(mg, "C", [0], [("C{g}(O)N", 1, [("assign_pattern", "OCN"), ("assign_anchor", [0, 1, 2])]),
+                                             ("C{g}(O)N", 1, [("assign_pattern", "NO"), ("assign_anchor", [1])])])
+        yield _corpus_history(mg, "CC", [1], [("C{g}C", 1, [("set_name", "grp"), ("assign_pattern", "C=O")])])
 
 
 PROBE = "C1(=O)c{q}1"      # parsed after every call to see that the Parser object is still usable
+
+
+# ---- edits of the PUBLIC attributes of a ProxyGraph after construction (ProxyGraph is a plain attribute bag:
+# pattern and anchor are public, ProxyGroup's setter assigns g.name). replace_node must read them at call time.
+def edit_state(pattern, anchors, e):
+    """Pure simulation of an edit on (pattern, anchor list contents): what the model is given at call time."""
+    op = e[0]
+    if op == "assign_anchor":
+        return pattern, list(e[1])
+    if op == "append":
+        return pattern, anchors + [e[1]]
+    if op == "insert0":
+        return pattern, [e[1]] + anchors
+    if op == "del_last":
+        return pattern, anchors[:-1]
+    if op == "reverse":
+        return pattern, anchors[::-1]
+    if op == "assign_pattern":
+        return e[1], anchors
+    if op == "set_name":
+        return pattern, anchors
+    raise ValueError(op)
+
+
+def edit_object(pg, e):
+    """The same edit done the way a caller does it on the real object."""
+    op = e[0]
+    if op == "assign_anchor":
+        pg.anchor = list(e[1])
+    elif op == "append":
+        pg.anchor.append(e[1])
+    elif op == "insert0":
+        pg.anchor.insert(0, e[1])
+    elif op == "del_last":
+        del pg.anchor[-1]
+    elif op == "reverse":
+        pg.anchor.reverse()
+    elif op == "assign_pattern":
+        pg.pattern = e[1]
+    elif op == "set_name":
+        pg.name = e[1]
+    else:
+        raise ValueError(op)
+
+
+def step_states(c):
+    """(pattern, anchors) the ProxyGraph holds when each step's call is made."""
+    pat, anc = c["pattern"], list(c["anchors"])
+    out = []
+    for st in c["steps"]:
+        for e in st.get("edits") or []:
+            pat, anc = edit_state(pat, anc, e)
+        out.append((pat, list(anc)))
+    return out
+
+
+def rand_edits(rng, mg, pattern, anchors, deg):
+    """1-2 edits that keep the ProxyGraph usable (pattern parses, anchors mostly inside it)."""
+    edits = []
+    pat, anc = pattern, list(anchors)
+    for _ in range(rng.choice([1, 1, 2])):
+        k = safe_parse(mg, pat, 0).number_of_nodes()
+        r = rng.random()
+        if r < 0.22 and k > 0:                       # longer list assigned
+            e = ("assign_anchor", anc + [rng.randrange(0, k) for _ in range(rng.randint(1, 2))])
+        elif r < 0.36 and len(anc) >= 2:             # shorter list assigned
+            e = ("assign_anchor", anc[:rng.randint(1, len(anc) - 1)])
+        elif r < 0.48 and k > 0:                     # reordered / different list assigned
+            new = anc[::-1] if len(set(anc)) > 1 and rng.random() < 0.5 else [rng.randrange(0, k) for _ in range(max(2, min(deg, 3)))]
+            e = ("assign_anchor", new)
+        elif r < 0.60 and k > 0:
+            e = ("append", rng.randrange(0, k))
+        elif r < 0.66 and k > 0:
+            e = ("insert0", rng.randrange(0, k))
+        elif r < 0.76 and len(anc) >= 2:
+            e = ("del_last",)
+        elif r < 0.82 and len(anc) >= 2:
+            e = ("reverse",)
+        elif r < 0.95:
+            while True:
+                new = rng.choice(["CC", "NO", "CCC", "C=O", "OCN", "C1CC1", "C(C)(C)C", "C<2,1>C", "C{a}", "N"]) \
+                    if rng.random() < 0.7 else rand_sub_pattern(rng)
+                h = safe_parse(mg, new, 0)
+                if h is not None and new != pat:
+                    break
+            e = ("assign_pattern", new)
+            pat, anc = edit_state(pat, anc, e)
+            edits.append(e)
+            k2 = h.number_of_nodes()
+            if k2 > 0 and any(a >= k2 for a in anc) and rng.random() < 0.85:
+                e = ("assign_anchor", [rng.randrange(0, k2) for _ in range(rng.randint(1, 3))])
+            else:
+                continue
+        else:
+            e = ("set_name", "grp")
+        pat, anc = edit_state(pat, anc, e)
+        edits.append(e)
+    return edits, pat, anc
 
 
 def _make_proxy_graph(c, anchors_arg):
@@ -401,20 +523,22 @@ def _call(graph, node, pg, parser):
     return out + (cm.identical(g, graph),)
 
 
-def _object_invariants(c, pg, anchors_arg, anchor_obj, parser, where, probe=True):
+def _object_invariants(c, pg, anchors_arg, anchor_obj, parser, where, probe=True, exp=None):
     """What replace_node may NOT touch: the ProxyGraph (pattern, anchor list object and contents, name,
     properties), the caller's anchor list, the mutable default of ProxyGraph.__init__, and the parser's
     configuration; the parser must still parse. (It MAY reset the parser's working state: parse() does.)"""
     msgs = []
-    if pg.pattern != c["pattern"]:
+    # exp = (pattern, anchors, name) the caller left in the object before the call (defaults: as constructed)
+    exp_pattern, exp_anchors, exp_name = exp if exp is not None else (c["pattern"], list(c["anchors"]), None)
+    if pg.pattern != exp_pattern:
         msgs.append("%s: ProxyGraph.pattern changed to %r" % (where, pg.pattern))
     if pg.anchor is not anchor_obj:
         msgs.append("%s: ProxyGraph.anchor was rebound to another object" % where)
-    if list(pg.anchor) != list(c["anchors"]):
-        msgs.append("%s: ProxyGraph.anchor changed from %r to %r" % (where, list(c["anchors"]), list(pg.anchor)))
-    if anchors_arg != list(c["anchors"]):
-        msgs.append("%s: the caller's anchor list changed from %r to %r" % (where, list(c["anchors"]), anchors_arg))
-    if pg.name is not None or pg.properties != {}:
+    if list(pg.anchor) != list(exp_anchors):
+        msgs.append("%s: ProxyGraph.anchor changed from %r to %r" % (where, list(exp_anchors), list(pg.anchor)))
+    if anchors_arg != list(exp_anchors):
+        msgs.append("%s: the caller's anchor list changed from %r to %r" % (where, list(exp_anchors), anchors_arg))
+    if pg.name != exp_name or pg.properties != {}:
         msgs.append("%s: ProxyGraph.name/properties changed" % where)
     if ProxyGraph.__init__.__defaults__[0] != [0]:
         msgs.append("%s: the default anchor list of ProxyGraph.__init__ is now %r" % (where, ProxyGraph.__init__.__defaults__[0]))
@@ -456,7 +580,16 @@ def run_impl(c):
     outs, snaps, msgs = [], [], []
     prev = None
     last = len(c["steps"]) - 1
+    states = step_states(c)
+    exp_name = None
     for j, step in enumerate(c["steps"]):
+        # the caller edits the ProxyGraph's public attributes before this call
+        for e in step.get("edits") or []:
+            edit_object(pg, e)
+            if e[0] == "set_name":
+                exp_name = e[1]
+        anchor_obj = anchors_arg = pg.anchor          # the list object the caller left in place
+        cur_pattern, cur_anchors = states[j]
         if step.get("chain"):
             # the parent of this step is the previous actual result (as in build_graphs); from now on a fixed input
             if prev is not None and prev.number_of_nodes() > 0 and not has_selfloop(prev):
@@ -468,21 +601,22 @@ def run_impl(c):
             # same Parser object, a ProxyGraph of its own whose pattern the parser rejects: the call must raise what
             # a FRESH parser raises on that pattern (parse() comes first in replace_node: before the node lookup and
             # before the anchors are read), and must leave the parent and the ProxyGraph alone
-            bad_anchors = list(c["anchors"])
+            bad_anchors = list(cur_anchors)
             bad_pg = ProxyGraph(step["bad"], anchor=bad_anchors)
             expect = parser_rejects(c["mg"], step["bad"], len(step["graph"].nodes))
             st, res, same = _call(step["graph"], step["node"], bad_pg, parser)
             if st != expect:
                 msgs.append("step %d: sub-pattern %r: a fresh parser raises %s, the call with the shared parser gave %s"
                             % (j, step["bad"], expect, st))
-            if bad_pg.pattern != step["bad"] or bad_pg.anchor is not bad_anchors or bad_anchors != list(c["anchors"]):
+            if bad_pg.pattern != step["bad"] or bad_pg.anchor is not bad_anchors or bad_anchors != list(cur_anchors):
                 msgs.append("step %d: the ProxyGraph of the rejected call was modified" % j)
             res = (expect, res)        # what the model side says, and the message
         else:
             st, res, same = _call(step["graph"], step["node"], pg, parser)
         if not same:
             msgs.append("step %d: replace_node mutated its graph argument" % j)
-        msgs += _object_invariants(c, pg, anchors_arg, anchor_obj, parser, "after step %d" % j, probe=(j == last))
+        msgs += _object_invariants(c, pg, anchors_arg, anchor_obj, parser, "after step %d" % j, probe=(j == last),
+                                   exp=(cur_pattern, cur_anchors, exp_name))
         outs.append((st, res))
         snaps.append(cm.copy_exact(res) if st == "ok" else None)
         prev = res if st == "ok" else None
@@ -492,17 +626,21 @@ def run_impl(c):
     return ("hist", outs, msgs)
 
 
-def sub_graph(c, graph=None):
+def sub_graph(c, graph=None, pattern=None):
     graph = c["graph"] if graph is None else graph
-    return Parser(use_multigraph=c["mg"]).parse(c["pattern"], idx_offset=len(graph.nodes))
+    pattern = c["pattern"] if pattern is None else pattern
+    return Parser(use_multigraph=c["mg"]).parse(pattern, idx_offset=len(graph.nodes))
 
 
-def _step_terms(c, graph, node, out, sfx):
-    """Definitions and check expressions of one replace_node call; names get the suffix sfx."""
+def _step_terms(c, graph, node, out, sfx, pattern=None, anchors=None):
+    """Definitions and check expressions of one replace_node call; names get the suffix sfx.
+    pattern / anchors: what the ProxyGraph holds at call time (default: as constructed)."""
     mg = c["mg"]
-    h = sub_graph(c, graph)
+    h = sub_graph(c, graph, pattern)
     ty = "mgraph" if mg else "graph"
-    defs = {"g" + sfx: cm.any_graph(graph), "h" + sfx: cm.any_graph(h)}
+    anchors = c["anchors"] if anchors is None else anchors
+    defs = {"g" + sfx: cm.any_graph(graph), "h" + sfx: cm.any_graph(h),
+            "anchors" + sfx: "(%s : list Z)" % ct.lst([ct.z(a) for a in anchors])}
     if out[0] == "ok":
         if out[1].is_multigraph() != mg:
             raise ct.Unrepresentable("result graph class differs from the parent's")
@@ -513,7 +651,7 @@ def _step_terms(c, graph, node, out, sfx):
         defs["out" + sfx] = "(@PErr %s EIndex)" % ty
     else:
         raise ct.Unrepresentable("replace_node raised %s: %s" % (out[0], out[1]))
-    args = "$g%s %s $h%s $anchors" % (sfx, ct.z(node), sfx)
+    args = "$g%s %s $h%s $anchors%s" % (sfx, ct.z(node), sfx, sfx)
     if mg:
         model = "replace_node_multi " + args
         agree = "pres_eqb mgraph_eqb (%s) $out%s" % (model, sfx)
@@ -537,20 +675,22 @@ def coq_case(c, out):
         cc = nxtie_multi.coq_case(c["ops"], out[1])
         cc["checks"]["spec"] = "true"
         return cc
-    defs = {"anchors": "(%s : list Z)" % ct.lst([ct.z(a) for a in c["anchors"]])}
+    defs = {}
     if c["kind"] == "replace":
         d, agree, spec, model = _step_terms(c, c["graph"], c["node"], out, "")
         defs.update(d)
         return {"defs": defs, "checks": {"agree": agree, "spec": spec}, "diag": [model]}
-    # history: every call is compared with the model on ITS OWN inputs and the ORIGINAL anchors
+    # history: every call is compared with the model on ITS OWN inputs and the pattern / anchors the ProxyGraph
+    # holds at call time (as constructed unless the CALLER edited them; never what an earlier call left behind)
     agrees, specs, models = [], [], []
+    states = step_states(c)
     for j, (step, o) in enumerate(zip(c["steps"], out[1])):
         if step.get("bad") is not None:
             # outside the Gallina model (the parser is not modelled): "the call raises the class a fresh parser
             # raises", decided in Python; o = (class raised, (class expected, message))
             agrees.append("true" if o[0] == o[1][0] else "false")
             continue
-        d, agree, spec, model = _step_terms(c, step["graph"], step["node"], o, "_%d" % j)
+        d, agree, spec, model = _step_terms(c, step["graph"], step["node"], o, "_%d" % j, states[j][0], states[j][1])
         defs.update(d)
         agrees.append(agree)
         specs.append(spec)
@@ -566,7 +706,7 @@ def describe(c):
                 "default_anchor": bool(c.get("default_anchor")),
                 "steps": [{"graph": cm.graph_py(st["graph"]), "node": st["node"], "order": st["order"],
                            "src": st.get("src"), "chain": bool(st.get("chain")), "pick": st.get("pick", 0),
-                           "bad": st.get("bad")}
+                           "bad": st.get("bad"), "edits": [list(e) for e in st.get("edits") or []]}
                           for st in c["steps"]]}
     return {"kind": "replace", "mg": c["mg"], "graph": cm.graph_py(c["graph"]), "node": c["node"],
             "pattern": c["pattern"], "anchors": list(c["anchors"]), "order": c["order"], "src": c.get("src"),
@@ -579,7 +719,8 @@ def from_json(d):
     if d["kind"] == "history":
         steps = [{"graph": cm.graph_from_py(dict(st["graph"], multigraph=d["mg"])), "node": st["node"],
                   "order": st.get("order", "replay"), "src": st.get("src"), "chain": bool(st.get("chain")),
-                  "pick": st.get("pick", 0), "bad": st.get("bad")} for st in d["steps"]]
+                  "pick": st.get("pick", 0), "bad": st.get("bad"),
+                  "edits": [list(e) for e in st.get("edits") or []]} for st in d["steps"]]
         return {"kind": "history", "mg": d["mg"], "steps": steps, "pattern": d["pattern"],
                 "anchors": list(d["anchors"]), "default_anchor": bool(d.get("default_anchor"))}
     g = cm.graph_from_py(dict(d["graph"], multigraph=d["mg"]))
@@ -602,7 +743,8 @@ def key(c):
     if c["kind"] == "mtie":
         return ("mtie", tuple(repr(o) for o in c["ops"]))
     if c["kind"] == "history":
-        return ("hist", c["mg"], tuple((cm.canon(st["graph"]), st["node"], st.get("bad")) for st in c["steps"]),
+        return ("hist", c["mg"], tuple((cm.canon(st["graph"]), st["node"], st.get("bad"), repr(st.get("edits") or []))
+                                       for st in c["steps"]),
                 c["pattern"], tuple(c["anchors"]))
     return (c["mg"], cm.canon(c["graph"]), c["node"], c["pattern"], tuple(c["anchors"]))
 
@@ -645,6 +787,19 @@ def classes(c, out):
             yield "history_late_call_order_sensitive=yes"
         if c.get("default_anchor"):
             yield "default_anchor=yes"
+        states = step_states(c)
+        pat_prev, anc_prev = c["pattern"], list(c["anchors"])
+        for j, st in enumerate(c["steps"]):
+            if st.get("edits"):
+                yield "history_edited_before_call=%s" % ("first" if j == 0 else "later")
+                for e in st["edits"]:
+                    yield "history_edit=" + e[0]
+                la, lb = len(anc_prev), len(states[j][1])
+                d = _deg(c, st["graph"], st["node"])
+                yield "history_edit_anchor_len=" + ("longer" if lb > la else "shorter" if lb < la else "same")
+                if st.get("bad") is None and d > min(la, lb) and states[j][1] != anc_prev:
+                    yield "history_edit_changes_attachment=likely"
+            pat_prev, anc_prev = states[j]
         nbad = sum(1 for st in c["steps"] if st.get("bad") is not None)
         if nbad:
             yield "history_rejected_calls=%d" % nbad
